@@ -7,15 +7,75 @@
 
 use super::hist::{self, HistCfg, Op};
 use crate::ev::{Ev, Hasher};
-use crate::gen;
+use crate::gen::{self, Aff};
 use crate::rng::Rng;
 use crate::snap::snap;
 use crate::util::{lib, panic_sig};
 use crate::Ctx;
+use affinitree::pwl::afftree::AffTree;
 use affinitree::pwl::dot::Dot;
 use serde_json::json;
 
+/// Regression inputs of repaired defects: trees stored under harness/regress/ are rebuilt node by node and
+/// must survive the operation that used to fail.
+fn run_regressions(case: u64, ev: &mut Ev) {
+    let text = include_str!("../../regress/c04_far_mirror_tree.json");
+    let v: serde_json::Value = match serde_json::from_str(text) {
+        Ok(v) => v,
+        Err(_) => {
+            ev.skip("regression input file unreadable");
+            return;
+        }
+    };
+    let in_dim = v["in_dim"].as_u64().unwrap_or(0) as usize;
+    let mut nodes: std::collections::BTreeMap<usize, (Aff, Vec<Option<usize>>)> = std::collections::BTreeMap::new();
+    for n in v["nodes"].as_array().cloned().unwrap_or_default() {
+        let idx = n["idx"].as_u64().unwrap() as usize;
+        let mat: Vec<Vec<f64>> = serde_json::from_value(n["mat"].clone()).unwrap();
+        let bias: Vec<f64> = serde_json::from_value(n["bias"].clone()).unwrap();
+        let ch: Vec<Option<usize>> = serde_json::from_value(n["children"].clone()).unwrap();
+        nodes.insert(idx, (Aff { mat, bias }, ch));
+    }
+    let root = v["root"].as_u64().unwrap_or(0) as usize;
+    let built = lib(case, "rebuild regression tree", || {
+        let mut t = AffTree::<2>::from_aff(nodes[&root].0.to_lib());
+        let mut stack = vec![(root, t.tree.get_root_idx())];
+        while let Some((old, new)) = stack.pop() {
+            for (l, c) in nodes[&old].1.iter().enumerate() {
+                if let Some(c) = c {
+                    let id = t.add_child_node(new, l, nodes[c].0.to_lib()).unwrap();
+                    stack.push((*c, id));
+                }
+            }
+        }
+        t
+    });
+    let mut t = match built {
+        Ok(t) => t,
+        Err(_) => {
+            ev.skip("regression tree could not be rebuilt");
+            return;
+        }
+    };
+    if t.in_dim() != in_dim || t.len() != nodes.len() {
+        ev.skip("regression tree rebuilt with a different shape");
+        return;
+    }
+    match lib(case, "infeasible_elimination (regression: far mirror tree)", || t.infeasible_elimination()) {
+        Ok(_) => ev.inc("regression_inputs_survived"),
+        Err(p) => ev.violation(
+            case,
+            &format!("c04:panic:eliminate:{}", panic_sig(&p)),
+            "",
+            json!({"regression_input": "harness/regress/c04_far_mirror_tree.json", "op": "infeasible_elimination", "panic": p}),
+        ),
+    }
+}
+
 pub fn run_case(ctx: &Ctx, case: u64, ev: &mut Ev) {
+    if case == 0 {
+        run_regressions(case, ev);
+    }
     let mut rng = Rng::derive(ctx.seed, "C04", case);
     rng.big = ctx.tier == crate::Tier::Thorough && rng.chance(0.2);
     // swarm configuration
